@@ -35,7 +35,9 @@ CHUNK = 16
 PROBES = ["fault_eof", "fault_reset", "fault_epipe", "in_handshake",
           "in_data", "in_close", "alert_close_notify", "alert_warning",
           "alert_fatal", "ignore_abrupt", "no_close_socket", "byte_policy",
-          "remote_alert_surfaced", "abrupt_close_seen", "orderly_close_seen"]
+          "remote_alert_surfaced", "abrupt_close_seen", "orderly_close_seen",
+          "dead_peer", "dead_write", "dead_keyupdate", "dead_pha",
+          "dead_hello", "alert_readable", "alert_lost", "alert_data"]
 COMPONENTS_REAL = ["tlslite handshake/read/write/close paths incl. "
                    "_sendMsgThroughSocket error path, _shutdown, "
                    "BufferedSocket"]
@@ -59,6 +61,8 @@ SCENARIOS = [
     {"version": [3, 4], "flavour": "cert", "skey": "rsa", "hrr": True},
     {"version": [3, 3], "flavour": "srp_cert", "skey": "rsa"},
     {"version": [3, 3], "flavour": "cert", "skey": "dsa", "dsa": True},
+    {"version": [3, 4], "flavour": "cert", "skey": "ecdsa", "hrr": True,
+     "sset_extra": {"ticketKeys": ["33" * 32], "ticket_count": 2}},
 ]
 FLAGS = [(True, False), (True, True), (False, False), (False, True)]
 # (closeSocket, ignoreAbruptClose)
@@ -199,6 +203,29 @@ def plan(tier, base_seed):
                         jobs.append({"seed": si + 1, "fam": "alert",
                                      "si": si, "policy": "ideal", "fi": fi,
                                      "alert": [sender, place, level, desc]})
+    # the peer died with a fatal alert; the next record this endpoint sends
+    # fails in the transport while the alert is still waiting to be read
+    for si in ({"quick": [1, 2, 0, 9], "thorough": range(nsc)}[tier]):
+        tls13 = SCENARIOS[si]["version"] == [3, 4]
+        for fi in range(4):
+            for actor in "cs":
+                acts = ["write"] + (["keyupdate", "keyupdate_quiet"]
+                                    if tls13 else [])
+                if tls13 and actor == "s":
+                    acts.append("pha")
+                for act in acts:
+                    for f in ("epipe", "reset"):
+                        for desc, rd in ((40, "readable"), (80, "readable"),
+                                         (40, "lost"), (0, "data")):
+                            jobs.append({"seed": si + 1, "fam": "dead_peer",
+                                         "si": si, "policy": "ideal",
+                                         "fi": fi,
+                                         "dead": [actor, act, f, desc, rd]})
+        for fi in range(4):
+            for f in ("epipe", "reset"):
+                jobs.append({"seed": si + 1, "fam": "dead_peer", "si": si,
+                             "policy": "ideal", "fi": fi,
+                             "dead": ["c", "hello", f, 40, "readable"]})
     # base_seed rotates which jobs come first under a budget
     if jobs:
         k = base_seed % len(jobs)
@@ -219,6 +246,8 @@ def run(job, streams=None):
     sc = full_scenario(si)
     flags = FLAGS[job["fi"]]
     fam = job["fam"]
+    if fam == "dead_peer":
+        return run_dead_peer(job, sc, flags)
     if fam == "fault":
         script = BASE_SCRIPT
         pf = tuple(job["fault"])
@@ -413,6 +442,140 @@ def run(job, streams=None):
             "digest": h.hexdigest(), "faults": dict(sim.stats),
             "probes": probes, "steps": sim.steps, "order": "",
             "states": ["%s/%s/%s" % (si, fam, phase)],
+            "streams": {}, "inconclusive": False,
+            "sample": {"scenario": sc, "job": {k: v_ for k, v_ in job.items()
+                                               if k != "keep"}}}
+
+
+def run_dead_peer(job, sc, flags):
+    """The peer sent a fatal alert and vanished; the next send of this
+    endpoint (application data, KeyUpdate, post-handshake CertificateRequest,
+    ClientHello) fails with EPIPE / ECONNRESET while the alert sits unread."""
+    from tlslite.errors import (TLSAbruptCloseError, TLSRemoteAlert,
+                                TLSClosedConnectionError)
+    from tlslite.messages import Alert
+    from tlslite.constants import KeyUpdateMessageType
+    actor, act, f, desc, rd = job["dead"]
+    peer = "s" if actor == "c" else "c"
+    if act == "pha":
+        sc = dict(sc)
+        sc["cset"] = dict(sc["cset"], post_handshake_auth=True)
+        sc.setdefault("ckey", "rsa")
+    sim = nodes.new_run(job["seed"], chooser=kernel.Chooser(streams={}),
+                        max_steps=200000, sched="first")
+    pair = nodes.Pair(sim, sc, policy="ideal")
+    for ep in (pair.c, pair.s):
+        ep.conn.closeSocket = flags[0]
+        ep.conn.ignoreAbruptClose = flags[1]
+    eps = {"c": pair.c, "s": pair.s}
+    viol = []
+    probes = {"dead_peer": 1, "dead_" + act: 1, "alert_" + rd: 1}
+    ctx = "[%s %s]" % (json.dumps(sc, sort_keys=True, default=str),
+                       json.dumps({"dead": job["dead"], "fi": job["fi"]}))
+
+    def v(rule, sig, msg):
+        viol.append({"rule": rule, "sig": sig, "msg": msg + " " + ctx})
+
+    A, P = eps[actor], eps[peer]
+
+    def arm():
+        if rd in ("readable", "data"):
+            # sends fail; what the peer wrote before dying can still be read
+            A.sock.peer_gone = f
+        else:
+            # the whole transport fails from the next send on (alert lost)
+            for kind in ("send", "sendall"):
+                A.sock.fault_plan[(kind, A.sock.calls[kind])] = f
+
+    if act == "hello":
+        # plaintext fatal alert from a server that refuses service
+        P.sock.out.write(bytes([21, 3, 3, 0, 2, 2, desc]))
+        P.sock.abort()
+        arm()
+        oc = A.start(("handshake", "client"), pair.client_gen(None))
+        st = sim.run()
+        outs = [oc]
+    else:
+        oc, os_, st = pair.handshake()
+        if not (oc.kind == "ok" and os_.kind == "ok"):
+            raise RuntimeError("dead_peer baseline handshake failed: %r %r"
+                               % (oc.exc, os_.exc))
+
+        def op_gen(ep, op):
+            conn = ep.conn
+            if op[1] == "alert":
+                return lambda: conn._sendMsg(Alert().create(op[3], op[2]))
+            if op[1] == "write":
+                return lambda: conn.writeAsync(b"y" * 40)
+            if op[1] == "read":
+                return lambda: conn.readAsync(None, 1)
+            if op[1] == "keyupdate":
+                return lambda: conn.send_keyupdate_request(
+                    KeyUpdateMessageType.update_requested)
+            if op[1] == "keyupdate_quiet":
+                return lambda: conn.send_keyupdate_request(
+                    KeyUpdateMessageType.update_not_requested)
+            if op[1] == "pha":
+                return lambda: conn.request_post_handshake_auth()
+            raise ValueError(op)
+        # rd == "data": what waits in the receive buffer is application
+        # data, not an alert
+        st = sim_script.run_script(
+            sim, eps, [[peer, "write"]] if rd == "data" else
+            [[peer, "alert", 2, desc]], op_gen)
+        P.sock.abort()
+        arm()
+        st = sim_script.run_script(sim, eps, [[actor, act], [actor, "read"],
+                                              [actor, "write"]], op_gen)
+        outs = [o for o in A.history if o.desc[0] != "handshake"]
+    if A.sock.fired:
+        probes["fault_" + f] = 1
+    if st != "idle":
+        v("liveness", "status_%s|dead_peer" % st, "simulation ended %s" % st)
+    first = outs[0] if outs else None
+    if first is None or first.kind != "exc":
+        v("fault_swallowed", "dead_peer|" + act,
+          "%s %s did not report the transport failure: %r" %
+          (actor, act, first and first.kind))
+    else:
+        e = first.exc
+        if not isinstance(e, (OSError, TLSAbruptCloseError, TLSRemoteAlert)):
+            v("exception_type", "%s|%s|dead_peer" % (act, type(e).__name__),
+              "%s %s raised %r" % (actor, act, e))
+        if isinstance(e, TLSRemoteAlert):
+            probes["remote_alert_surfaced"] = 1
+            if rd in ("lost", "data") or e.description != desc:
+                v("phantom_alert", "%s|%s" % (act, e.description),
+                  "%s raised %r but the peer sent alert %d" % (act, e, desc))
+        closed_after, resumable_after = first.post
+        if closed_after is False:
+            v("not_closed", "%s|%s" % (act, type(e).__name__),
+              "%s still open after %s raised %r" % (actor, act, e))
+        if resumable_after and not (flags[1] and act == "write"):
+            v("resumable_after_failure", act,
+              "%s session left resumable after %s raised %r" %
+              (actor, act, e))
+        if flags[0] and not A.sock.closed:
+            v("socket_left_open", act, "closeSocket is set but %s's socket "
+              "is still open after %s raised %r" % (actor, act, e))
+        for o in outs[1:]:
+            if o.kind == "ok" and o.desc[0] == "write":
+                v("write_after_close", "ok", "%s write succeeded after the "
+                  "connection failed" % actor)
+            if o.kind == "exc" and isinstance(o.exc, TLSRemoteAlert) and \
+                    o.exc.description != desc:
+                v("phantom_alert", "%s|%s" % (o.desc[0], o.exc.description),
+                  "later %s raised %r" % (o.desc, o.exc))
+    key = json.dumps([job["si"], job["fi"], job["dead"]])
+    h = hashlib.sha256()
+    h.update(bytes(pair.link.c2s.wire_log))
+    h.update(bytes(pair.link.s2c.wire_log))
+    h.update(repr([o.sig() for w in "cs" for o in eps[w].history]).encode())
+    h.update(json.dumps([x["sig"] for x in viol]).encode())
+    return {"violations": viol, "nontrivial": bool(A.sock.fired), "key": key,
+            "digest": h.hexdigest(), "faults": dict(sim.stats),
+            "probes": probes, "steps": sim.steps, "order": "",
+            "states": ["%s/dead_peer/%s" % (job["si"], act)],
             "streams": {}, "inconclusive": False,
             "sample": {"scenario": sc, "job": {k: v_ for k, v_ in job.items()
                                                if k != "keep"}}}
